@@ -135,6 +135,10 @@ func MergerLoops(p *load.Prog, r *oblig.Report, rule string) {
 			if sel, ok := call.Fun.(*ast.SelectorExpr); ok && sel.Sel.Name == "Append" && strings.Contains(lt, "multierror.Error") {
 				return "error"
 			}
+			// acc = helper(acc, …): the accumulator is threaded through a helper that appends to it
+			if strings.Contains(lt, "multierror.Error") && len(call.Args) > 0 && types.ExprString(call.Args[0]) == types.ExprString(as.Lhs[0]) {
+				return "error"
+			}
 			if id, ok := call.Fun.(*ast.Ident); ok && id.Name == "append" && strings.HasSuffix(lt, "[]*github.com/openfga/api/proto/openfga/v1.TypeDefinition") {
 				return "accept"
 			}
@@ -730,44 +734,151 @@ func ModuleLookupShape(p *load.Prog, r *oblig.Report, rule string) {
 // parsed into the File field of every element (reached through errors.As or a type assertion on the
 // element).
 func ForwardedErrors(p *load.Prog, r *oblig.Report, rule string) {
-	fn := p.Func("transformer", "TransformModuleFilesToModel")
-	if fn == nil {
+	merger := p.Func("transformer", "TransformModuleFilesToModel")
+	if merger == nil {
 		r.Unknown(rule, "anchor:TransformModuleFilesToModel", "-", "function not found")
 		return
 	}
-	n := 0
-	for _, b := range fn.Blocks {
-		for _, in := range b.Instrs {
-			call, ok := in.(*ssa.Call)
-			if !ok {
-				continue
-			}
-			c := call.Common().StaticCallee()
-			if c == nil || c.Name() != "Append" || c.Pkg == nil || !strings.Contains(c.Pkg.Pkg.Path(), "go-multierror") || len(call.Common().Args) != 2 {
-				continue
-			}
-			list := call.Common().Args[1]
-			if sl, ok := list.(*ssa.Slice); ok {
-				if _, fresh := sl.X.(*ssa.Alloc); fresh {
-					continue // a literal argument list: judged by the merge-error rule
+	// the merger and the helpers of its package it reaches (the forwarding may live in a helper)
+	fns := []*ssa.Function{merger}
+	seen := map[*ssa.Function]bool{merger: true}
+	for i := 0; i < len(fns) && i < 40; i++ {
+		for _, b := range fns[i].Blocks {
+			for _, in := range b.Instrs {
+				if ci, ok := in.(ssa.CallInstruction); ok {
+					if cal := ci.Common().StaticCallee(); cal != nil && cal.Pkg == merger.Pkg && !seen[cal] && len(cal.Blocks) > 0 && !ast.IsExported(cal.Name()) {
+						seen[cal] = true
+						fns = append(fns, cal)
+					}
 				}
 			}
-			n++
-			construct := "merge-error:forwarded " + stripUnique(AccessPath(list))
-			pos := p.Pos(call.Pos())
-			if why := fileStoredForAll(fn, call, list); why != "" {
-				r.Bad(rule, construct, pos, "errors are forwarded without naming the file they were found in ("+why+"): with two unparseable files the caller cannot tell which one is at fault")
-			} else {
-				r.OK(rule, construct, pos, "file-stored-per-element", "a complete loop over the same list stores the parsed file's name into every element before the list is appended")
+		}
+	}
+	n := 0
+	for _, fn := range fns {
+		for _, b := range fn.Blocks {
+			for _, in := range b.Instrs {
+				call, ok := in.(*ssa.Call)
+				if !ok {
+					continue
+				}
+				c := call.Common().StaticCallee()
+				if c == nil || c.Name() != "Append" || c.Pkg == nil || !strings.Contains(c.Pkg.Pkg.Path(), "go-multierror") || len(call.Common().Args) != 2 {
+					continue
+				}
+				list := call.Common().Args[1]
+				if sl, ok := list.(*ssa.Slice); ok {
+					if _, fresh := sl.X.(*ssa.Alloc); fresh {
+						continue // a literal argument list: judged by the merge-error rule
+					}
+				}
+				n++
+				construct := "merge-error:forwarded errors"
+				pos := p.Pos(call.Pos())
+				why := ""
+				// the list may be what a helper returns: judge the helper's returns
+				if hc, isCall := list.(*ssa.Call); isCall {
+					if h := hc.Common().StaticCallee(); h != nil && seen[h] {
+						rets := 0
+						for _, hb := range h.Blocks {
+							ret, ok := hb.Instrs[len(hb.Instrs)-1].(*ssa.Return)
+							if !ok || len(ret.Results) == 0 {
+								continue
+							}
+							if cst, isC := ret.Results[0].(*ssa.Const); isC && cst.IsNil() {
+								continue
+							}
+							rets++
+							if w := fileStoredForAll(merger, h, ret, ret.Results[0]); w != "" {
+								why = w
+							}
+						}
+						if rets == 0 {
+							why = "the helper never returns a list"
+						}
+						if why != "" {
+							r.Bad(rule, construct, pos, "errors are forwarded without naming the file they were found in ("+why+"): with two unparseable files the caller cannot tell which one is at fault")
+						} else {
+							r.OK(rule, construct, pos, "file-stored-per-element", "the helper stores the parsed file's name into every element before it returns the list")
+						}
+						continue
+					}
+				}
+				if why = fileStoredForAll(merger, fn, call, list); why != "" {
+					r.Bad(rule, construct, pos, "errors are forwarded without naming the file they were found in ("+why+"): with two unparseable files the caller cannot tell which one is at fault")
+				} else {
+					r.OK(rule, construct, pos, "file-stored-per-element", "a complete loop over the same list stores the parsed file's name into every element before the list is appended")
+				}
 			}
 		}
 	}
 	if n == 0 {
-		r.Unknown(rule, "merge-error:forwarded", p.Pos(fn.Pos()), "no forwarded error list found in the merger (anchor gone)")
+		r.Unknown(rule, "merge-error:forwarded", p.Pos(merger.Pos()), "no forwarded error list found in the merger (anchor gone)")
 	}
 }
 
-func fileStoredForAll(fn *ssa.Function, app *ssa.Call, list ssa.Value) string {
+// fileValueOK: v is <module>.Name of the module whose Contents the merger parses, directly or as a helper
+// parameter that receives it at every call site.
+func fileValueOK(merger *ssa.Function, v ssa.Value, depth int) (bool, string) {
+	if depth > 3 {
+		return false, "too deep"
+	}
+	if prm, ok := v.(*ssa.Parameter); ok && prm.Parent() != merger {
+		f := prm.Parent()
+		idx := -1
+		for i, q := range f.Params {
+			if q == prm {
+				idx = i
+			}
+		}
+		sites := 0
+		for _, g := range append([]*ssa.Function{merger}, callersInPkg(merger, f)...) {
+			for _, b := range g.Blocks {
+				for _, in := range b.Instrs {
+					if ci, ok := in.(ssa.CallInstruction); ok && ci.Common().StaticCallee() == f && idx < len(ci.Common().Args) {
+						sites++
+						if ok, why := fileValueOK(merger, ci.Common().Args[idx], depth+1); !ok {
+							return false, why
+						}
+					}
+				}
+			}
+		}
+		if sites == 0 {
+			return false, "the helper that sets File is never called from the merger"
+		}
+		return true, ""
+	}
+	vp := AccessPath(v)
+	if !strings.HasSuffix(vp, ".Name") || !parsedContentsOf(merger, strings.TrimSuffix(vp, ".Name")) {
+		return false, "File is set to " + stripUnique(vp) + ", which is not the name of the file being parsed"
+	}
+	return true, ""
+}
+
+// callersInPkg: unexported functions of the merger's package that call f (one level is enough here).
+func callersInPkg(merger, f *ssa.Function) []*ssa.Function {
+	var out []*ssa.Function
+	if merger.Pkg == nil {
+		return nil
+	}
+	for _, m := range merger.Pkg.Members {
+		g, ok := m.(*ssa.Function)
+		if !ok || g == merger {
+			continue
+		}
+		for _, b := range g.Blocks {
+			for _, in := range b.Instrs {
+				if ci, ok := in.(ssa.CallInstruction); ok && ci.Common().StaticCallee() == f {
+					out = append(out, g)
+				}
+			}
+		}
+	}
+	return out
+}
+
+func fileStoredForAll(merger, fn *ssa.Function, app ssa.Instruction, list ssa.Value) string {
 	want := AccessPath(list)
 	why := "no store to a File field of the forwarded errors"
 	for _, b := range fn.Blocks {
@@ -791,9 +902,8 @@ func fileStoredForAll(fn *ssa.Function, app *ssa.Call, list ssa.Value) string {
 				continue
 			}
 			// the value: <module>.Name of the module whose Contents were parsed
-			vp := AccessPath(st.Val)
-			if !strings.HasSuffix(vp, ".Name") || !parsedContentsOf(fn, strings.TrimSuffix(vp, ".Name")) {
-				why = "File is set to " + stripUnique(vp) + ", which is not the name of the file being parsed"
+			if ok, w := fileValueOK(merger, st.Val, 0); !ok {
+				why = w
 				continue
 			}
 			// the element: fa.X derives from an element of the forwarded list
